@@ -123,6 +123,13 @@ def run(ctx):
                 var = sum(e * e for e in errs) / len(errs) / T32 / T32; a = 2.0**-15
                 z = abs(var / (a * a) - 1) / math.sqrt(2.0 / len(errs))
                 if z > 8: ctx.report('ks-variance', 'key-switching rows: error variance %.3e vs alpha^2 = %.3e (z = %.1f over %d rows)' % (var, a * a, z, len(errs)), {'variance': var, 'expected': a * a, 'z': z})
+    # --- lweSymEncryptWithExternalNoise: the noise is an argument, only the mask is drawn (every n incl. odd ones)
+    for n in ([1, 2, 7, 8, 9, 33, 631] if not thorough else [1, 2, 3, 7, 8, 9, 16, 33, 500, 631, 1025]):
+        key = [rng.randrange(2) for _ in range(n)]
+        for rep in range(2):
+            msg = rng.choice([0, 2**29, -2**29, rng.randrange(-2**31, 2**31)])
+            num = rng.randrange(-2**40, 2**40); ke = rng.choice([45, 50, 60])
+            check('lweSymEncryptWithExternalNoise n=%d' % n, 14, [n] + key + [msg, num, ke], sd + 3 * n + rep, rng.randrange(50), 32768, 0)
     # --- whole secret key sets (LWE key, ring key, key-switching key, bootstrapping key in the order of the C++)
     for (n, k, l, B, t, bb) in ([(4, 1, 2, 10, 2, 2), (3, 2, 3, 7, 1, 3)] if not thorough else [(4, 1, 2, 10, 2, 2), (3, 2, 3, 7, 1, 3), (16, 1, 3, 7, 8, 2), (630, 1, 3, 7, 8, 2), (500, 1, 2, 10, 8, 2)]):
         nks = k * N * t * (1 << bb) * (n + 1)
